@@ -55,3 +55,14 @@ Proof. vm_compute. reflexivity. Qed.
 Example ex_guarded_late :
   accepts_c07 (ex_sys_trace (ex_cfg_guarded 4) ex_y0 ex_w_late) = true.
 Proof. vm_compute. reflexivity. Qed.
+
+(* non-vacuity of the guarded system: a lossy exchange with a FAIL verdict *)
+Lemma ex_nonvacuous :
+  let t := ex_sys_trace (ex_cfg_guarded 4) (ex_sys_init 100 7000)
+             [ExASend 1; ExADelS 0; ExADropC 1; ExATimer; ExADupC 0; ExADelC 0 false;
+              ExADelC 0 true; ExADelS 0; ExADelS 0; ExADelS 0] in
+  ex_concl_count 1 t = 1%nat /\
+  In (ExRx (ExConR 7001 1) false, [ExResp 0 7001 1 (-1); ExTx (ExRst 7001)]) t /\
+  In (ExRx (ExConR 7001 1) true, [ExTx (ExRst 7001)]) t /\
+  accepts_c07 t = true.
+Proof. vm_compute. repeat split; auto 10. Qed.
